@@ -14,9 +14,28 @@ import plotly.figure_factory as ff
 import plotly.graph_objects as go
 
 from .base_facility import BaseFacilityState
+from .base_priority_rule import ResourcePriorityRuleMode, WorkplacePriorityRuleMode
 from .base_task import BaseTask, BaseTaskDependency, BaseTaskState
 from .base_worker import BaseWorkerState
 from .base_subproject_task import BaseSubProjectTask
+
+
+def _priority_rule_kwargs_from_json(j):
+    """Priority rules of a task saved in JSON (older files do not have them)."""
+    kwargs = {}
+    if "workplace_priority_rule" in j:
+        kwargs["workplace_priority_rule"] = WorkplacePriorityRuleMode(
+            j["workplace_priority_rule"]
+        )
+    if "worker_priority_rule" in j:
+        kwargs["worker_priority_rule"] = ResourcePriorityRuleMode(
+            j["worker_priority_rule"]
+        )
+    if "facility_priority_rule" in j:
+        kwargs["facility_priority_rule"] = ResourcePriorityRuleMode(
+            j["facility_priority_rule"]
+        )
+    return kwargs
 
 
 class BaseWorkflow(object, metaclass=abc.ABCMeta):
@@ -156,6 +175,7 @@ class BaseWorkflow(object, metaclass=abc.ABCMeta):
                         allocated_worker_id_record=j["allocated_worker_id_record"],
                         allocated_facility_list=j["allocated_facility_list"],
                         allocated_facility_id_record=j["allocated_facility_id_record"],
+                        **_priority_rule_kwargs_from_json(j),
                     )
                 )
             elif j["type"] == "BaseSubProjectTask":
@@ -205,6 +225,7 @@ class BaseWorkflow(object, metaclass=abc.ABCMeta):
                         allocated_worker_id_record=j["allocated_worker_id_record"],
                         allocated_facility_list=j["allocated_facility_list"],
                         allocated_facility_id_record=j["allocated_facility_id_record"],
+                        **_priority_rule_kwargs_from_json(j),
                     )
                 )
         # self.task_list = [
